@@ -10,6 +10,45 @@ import (
 
 // convert incoming EEBUS json format into standard json format
 func JsonFromEEBUSJson(json []byte) []byte {
+	// only the structure is transformed, the content of strings has to stay as it is
+	return transformOutsideJsonStrings(json, jsonStructureFromEEBUSJson)
+}
+
+// apply a transformation to everything but the string literals of a json text
+func transformOutsideJsonStrings(json []byte, transform func([]byte) []byte) []byte {
+	result := make([]byte, 0, len(json))
+
+	start := 0
+	inString := false
+	for i := 0; i < len(json); i++ {
+		switch {
+		case inString && json[i] == '\\':
+			// skip the escaped character
+			i++
+		case inString && json[i] == '"':
+			result = append(result, json[start:i+1]...)
+			start = i + 1
+			inString = false
+		case !inString && json[i] == '"':
+			result = append(result, transform(json[start:i])...)
+			start = i
+			inString = true
+		}
+	}
+
+	if start < len(json) {
+		if inString {
+			result = append(result, json[start:]...)
+		} else {
+			result = append(result, transform(json[start:])...)
+		}
+	}
+
+	return result
+}
+
+// convert the structural parts of the EEBUS json format into standard json format
+func jsonStructureFromEEBUSJson(json []byte) []byte {
 	var result = bytes.ReplaceAll(json, []byte("[{"), []byte("{"))
 	result = bytes.ReplaceAll(result, []byte("},{"), []byte(","))
 	result = bytes.ReplaceAll(result, []byte("}]"), []byte("}"))
